@@ -1573,6 +1573,33 @@ impl VirtualFileSystem for Memfs {
         let dst_root = self._abs(&guard, dst)?;
         let copy_into = self._is_dir(&guard, &dst_root);
 
+        // Validate the move up front so that a failure leaves the filesystem untouched
+        if !guard.contains_entry(&src_root) {
+            return Err(PathError::does_not_exist(src_root).into());
+        }
+        let dst_first = if copy_into { dst_root.mash(src_root.base()?) } else { dst_root.clone() };
+
+        // A path can't be moved onto itself or into its own descendants
+        if dst_first.starts_with(&src_root) {
+            return Err(PathError::exists_already(dst_first).into());
+        }
+
+        // The destination's parent needs to be an existing directory
+        let dst_parent = dst_first.dir()?;
+        match guard.get_entry(&dst_parent) {
+            Some(x) if x.is_dir() => {},
+            Some(_) => return Err(PathError::is_not_dir(dst_parent).into()),
+            None => return Err(PathError::does_not_exist(dst_parent).into()),
+        }
+
+        // Only destination files are replaced, dropping their content
+        if let Some(x) = guard.get_entry(&dst_first) {
+            if x.is_dir() {
+                return Err(PathError::exists_already(dst_first).into());
+            }
+        }
+        guard.remove_file(&dst_first);
+
         let mut paths = vec![src_root.clone()];
         while let Some(src_path) = paths.pop() {
             let dst_path = if copy_into {
